@@ -166,8 +166,8 @@ func (obj HhmmTransitionMatrix) GetMatrix() Matrix {
 }
 
 func (obj HhmmTransitionMatrix) Normalize() error {
-  obj.normalize(obj.Tree)
-  return nil
+  _, err := obj.normalize(obj.Tree)
+  return err
 }
 
 func (obj HhmmTransitionMatrix) CloneTransitionMatrix() TransitionMatrix {
@@ -229,6 +229,11 @@ func (obj HhmmTransitionMatrix) normalizeLeaf(node HmmNode) Scalar {
     for j := from; j < to; j++ {
       t1.LogAdd(t1, tr.At(i, j), t2)
     }
+    // a row without any transition inside the leaf stays as it is
+    // (-Inf - -Inf is NaN)
+    if math.IsInf(t1.GetFloat64(), -1) {
+      continue
+    }
     // normalize values in row i
     for j := from; j < to; j++ {
       tr.At(i, j).Sub(tr.At(i, j), t1)
@@ -239,7 +244,26 @@ func (obj HhmmTransitionMatrix) normalizeLeaf(node HmmNode) Scalar {
   return r
 }
 
-func (obj HhmmTransitionMatrix) normalize(node HmmNode) Scalar {
+// The states of a node share their transition probabilities to all
+// other nodes, i.e. either all or none of them must have transitions
+// inside the node
+func (obj HhmmTransitionMatrix) checkNode(node HmmNode) error {
+  tr := obj.Matrix
+  n  := 0
+  for i := node.States[0]; i < node.States[1]; i++ {
+    for j := node.States[0]; j < node.States[1]; j++ {
+      if !math.IsInf(tr.At(i, j).GetFloat64(), -1) {
+        n++; break
+      }
+    }
+  }
+  if n != 0 && n != node.States[1] - node.States[0] {
+    return fmt.Errorf("invalid hierarchical transition matrix: only %d of the states %d to %d have transitions inside their node", n, node.States[0], node.States[1]-1)
+  }
+  return nil
+}
+
+func (obj HhmmTransitionMatrix) normalize(node HmmNode) (Scalar, error) {
   tr := obj.Matrix
   t  := tr.ElementType()
   c  := NewScalar(t, 0.0)
@@ -247,7 +271,7 @@ func (obj HhmmTransitionMatrix) normalize(node HmmNode) Scalar {
   t2 := NewScalar(t, math.Inf(-1))
   // if this is a leaf, we're done
   if n := len(node.Children); n == 0 {
-    return obj.normalizeLeaf(node)
+    return obj.normalizeLeaf(node), nil
   } else {
     from := node.Children[0  ].States[0]
     to   := node.Children[n-1].States[1]
@@ -256,7 +280,20 @@ func (obj HhmmTransitionMatrix) normalize(node HmmNode) Scalar {
       c.SetFloat64(0.0)
       // normalize children first
       // t1 = sum lambda
-      t1 := obj.normalize(node.Children[i])
+      t1, err := obj.normalize(node.Children[i])
+      if err != nil {
+        return nil, err
+      }
+      if err := obj.checkNode(node.Children[i]); err != nil {
+        return nil, err
+      }
+      // a child without any internal transition was not rescaled
+      // (sum lambda = 1), its rows consist only of the transitions
+      // to the other children
+      if math.IsInf(t1.GetFloat64(), -1) {
+        t1.SetFloat64(0.0)
+        c .SetFloat64(math.Inf(-1))
+      }
       // normalize transitions between child i and all other
       // children
       rfrom := node.Children[i].States[0]
@@ -271,13 +308,15 @@ func (obj HhmmTransitionMatrix) normalize(node HmmNode) Scalar {
           obj.normalizeInt(rfrom, rto, cfrom, cto, t1),
           t2)
       }
-      // renormalize submatrix
-      obj.renormalizeSubmatrix(rfrom, rto, from, to, c)
+      // renormalize submatrix (unless all its entries are zero)
+      if !math.IsInf(c.GetFloat64(), -1) {
+        obj.renormalizeSubmatrix(rfrom, rto, from, to, c)
+      }
       // sum lambda = c sum lambda'
       t1.Add(t1, c)
       // sum up normalization constants
       r.LogAdd(r, t1, t2)
     }
-    return r
+    return r, nil
   }
 }
